@@ -1,7 +1,770 @@
-import RaptorModel.Model.Mpi
+import RaptorModel.Lemmas.MpiLemmas
+/-!
+# C05 — phase isolation of wildcard receives (communication-closed layers)
+
+Theorems about the abstract MPI semantics of `RaptorModel/Model/Mpi.lean` (unchanged), for every
+number of ranks `N`, every script family `S` and every execution (`Reach N S c`), unbounded.
+The library under verification opens every phase with an all-reduce (a collective), posts its
+sends, then receives with wildcard probes as many messages as it learned from the all-reduce.
+
+* `J1` — barrier invariant: no rank has passed more collectives than another has reached;
+* `causality` — a message is never received in an earlier epoch than it was sent;
+* `J2`, `J2_perm` — `net ++ log` is a permutation of the messages of the executed sends; each
+  occurs exactly once and nothing else occurs (messages are identified by (src,pos));
+* **`phase_isolation`** — under `CountMatch` a wildcard receive only ever consumes a message of
+  its own epoch (`phase_isolation_of_countMatch`: the hypotheses `WildOnly` and `DstValid` are
+  not needed for safety; the statement with all three hypotheses is `phase_isolation`);
+* `received_multiset_eq`, `received_count_eq` — a rank that has finished epoch `e` has received
+  with its wildcard receives of tag `t` exactly the messages sent to it with tag `t` in epoch `e`
+  (as a `List.Perm`), all those sends have been executed, none is left in flight
+  (`received_core`);
+* `progress` / `no_deadlock` — no deadlock: for phase-structured scripts (any number of phases)
+  with `CountMatch`, a reachable configuration with an unfinished rank has a successor;
+  `steps_bounded` — executions are finite; `maximal_execution_finished` — a terminal
+  configuration has all scripts finished and an empty network; `exists_complete_execution`;
+* `arrival_order_irrelevant` — two complete executions deliver the same multisets per
+  (rank, tag, epoch);
+* non-vacuity: the 3-rank two-phase family `exS` reusing tag 7 satisfies all hypotheses
+  (`CountMatch` by a bounded decidable check, `countMatch_of_bounded`), with explicitly
+  constructed executions exhibiting both arrival orders.
+
+Helper lemmas (and the counting invariants K1 `Reach.count_msgs`, K2 `Reach.count_wild`, the log
+well-formedness `Reach.log_wf`) are in `RaptorModel/Lemmas/MpiLemmas.lean`.
+
+Proof of `phase_isolation` (induction over the execution, no "first bad event" needed): when rank
+`r` at epoch `e` matches a message `m` of epoch `e' < e` with tag `t`, all `W` wildcard receives
+of `(r,t,e')` are already logged (K2, `r` is past epoch `e'`), by induction hypothesis each holds
+a `(r,t,e')` message, so the log holds `≥ W` such messages and the network one more (`m`); but
+K1 says log + network = number sent so far `≤` number sent at all `= W` (`CountMatch`).
+-/
 namespace Raptor.C05
 open Raptor.Mpi
 
-theorem passed_zero (s : Script) : passed s 0 = 0 := by simp [passed]
+variable {N : Nat} {S : Nat → Script}
+
+/-- every send addresses an existing rank -/
+def DstValid (N : Nat) (S : Nat → Script) : Prop :=
+  ∀ p, p < N → ∀ (i d t b : Nat), (S p)[i]? = some (Op.send d t b) → d < N
+
+/-! ## 1. Barrier invariant -/
+
+/-- J1: no rank has passed more collectives than any other rank has reached. -/
+theorem J1 {c : Cfg} (h : Reach N S c) {p q : Nat} (hp : p < N) (hq : q < N) :
+    passed (S p) (c.pc p) ≤ reached (S q) (c.pc q) :=
+  h.barrier p q hp hq
+
+/-! ## 2. Causality -/
+
+/-- A message is never received in an earlier epoch than it was sent; a message in flight was
+    sent by a rank `< N` in an epoch that its sender has entered and its destination has reached
+    (the destination may still be waiting at the collective that opens that epoch, but it cannot
+    receive there: at a receive operation `reached = passed`). -/
+theorem causality {c : Cfg} (h : Reach N S c) :
+    (∀ r pos m, (r, pos, m) ∈ c.log → m.epoch ≤ passed (S r) pos) ∧
+    (∀ m, m ∈ c.net → m.src < N ∧ m.epoch ≤ passed (S m.src) (c.pc m.src)) ∧
+    (∀ m, m ∈ c.net → m.dst < N → m.epoch ≤ reached (S m.dst) (c.pc m.dst)) :=
+  ⟨fun r pos m hx => h.causality_log (r, pos, m) hx,
+   fun _ hm => h.net_epoch_le (mem_allMsgs_of_net hm),
+   fun _ hm hd => h.causality_net hm hd⟩
+
+/-! ## 3. Bookkeeping -/
+
+/-- the message created by the send `send d t b` at position `i` of rank `p` -/
+def sendMsg (S : Nat → Script) (p i d t b : Nat) : Msg := ⟨p, i, d, t, b, passed (S p) i⟩
+
+/-- J2, permutation form: the messages in flight together with the received ones are a
+    permutation of the list of messages of the executed sends. -/
+theorem J2_perm {c : Cfg} (h : Reach N S c) : c.allMsgs.Perm (sentList N S c.pc) :=
+  h.allMsgs_perm
+
+/-- J2: every executed send has its message exactly once in `net ++ log`, nothing else occurs
+    there, and the messages are pairwise distinct. -/
+theorem J2 {c : Cfg} (h : Reach N S c) :
+    (∀ p i d t b, p < N → i < c.pc p → (S p)[i]? = some (.send d t b) →
+        (c.net ++ c.log.map (·.2.2)).count (sendMsg S p i d t b) = 1) ∧
+    (∀ m, m ∈ c.net ++ c.log.map (·.2.2) →
+        m.src < N ∧ m.pos < c.pc m.src ∧ (S m.src)[m.pos]? = some (.send m.dst m.tag m.body) ∧
+        m = sendMsg S m.src m.pos m.dst m.tag m.body) ∧
+    (c.net ++ c.log.map (·.2.2)).Nodup := by
+  refine ⟨fun p i d t b hp hi hop => ?_, fun m hm => ?_, h.nodup_allMsgs⟩
+  · have hmem : sendMsg S p i d t b ∈ c.allMsgs :=
+      h.mem_allMsgs.mpr ⟨hp, hi, hop, rfl⟩
+    have := h.nodup_allMsgs.count (a := sendMsg S p i d t b)
+    rw [if_pos hmem] at this
+    exact this
+  · obtain ⟨h1, h2, h3, h4⟩ := h.mem_allMsgs.mp hm
+    refine ⟨h1, h2, h3, ?_⟩
+    cases m
+    simp only [sendMsg] at h4 ⊢
+    simp only [h4]
+
+/-! ## 4. Phase isolation -/
+
+/-- Phase isolation needs only the count-match hypothesis. -/
+theorem phase_isolation_of_countMatch (hcm : CountMatch N S) {c : Cfg} (h : Reach N S c) :
+    ∀ x ∈ c.log, ∀ t, (S x.1)[x.2.1]? = some (.recvAny t) →
+      x.2.2.epoch = passed (S x.1) x.2.1 := by
+  induction h with
+  | init => intro x hx; cases hx
+  | @step c c' hc hs ih =>
+    have hc' : Reach N S c' := Reach.step hc hs
+    obtain ⟨r, op, hr, hop, hpc, hcase⟩ := hs.cases'
+    rcases hcase with ⟨d, t, b, rfl, hnet, hlog⟩ | ⟨m, hm, hd, hop', hold, hnet, hlog⟩ |
+      ⟨rfl, hall, hnet, hlog⟩
+    · rw [hlog]; exact ih
+    · intro x hx t hopx
+      rw [hlog] at hx
+      rcases List.mem_cons.mp hx with hx | hx
+      case inr => exact ih x hx t hopx
+      -- the new entry `(r, c.pc r, m)`
+      subst hx
+      show m.epoch = passed (S r) (c.pc r)
+      have hle : m.epoch ≤ passed (S r) (c.pc r) :=
+        hc'.causality_log (r, c.pc r, m) (by rw [hlog]; exact List.mem_cons_self)
+      apply Nat.le_antisymm hle
+      apply Nat.le_of_not_lt
+      intro hlt
+      -- the tag
+      have htag : m.tag = t := by
+        have h1 : (S r)[c.pc r]? = some (.recvAny t) := hopx
+        rw [hop] at h1
+        rcases hop' with h | h <;> rw [h] at h1 <;> cases h1
+        rfl
+      -- (1) `m` is an epoch-`m.epoch` message in flight
+      have h1 : 0 < List.countP (msgIs r t m.epoch) c.net :=
+        List.countP_pos_iff.mpr ⟨m, hm, msgIs_iff.mpr ⟨hd, htag, rfl⟩⟩
+      -- (2) in flight + received = sent so far ≤ sent at all = number of wildcard receives
+      have h2 := hc.count_msgs r t m.epoch
+      have h3 := hc.sent_le r t m.epoch
+      have h4 := hcm r hr t m.epoch
+      -- (3) all wildcard receives of that earlier epoch have been executed and logged
+      have h5 := hc.count_wild r t m.epoch
+      have h6 : cntUpto (S r) (Op.isRecvAny t) m.epoch (c.pc r) = wildRecvs (S r) t m.epoch :=
+        cntUpto_eq_countAt_of_lt _ _ (hc.pc_le_length r) hlt
+      -- (4) by induction hypothesis each of them consumed a message of that epoch
+      have h7 : List.countP (wildEntry S r t m.epoch) c.log ≤
+          List.countP (fun x => msgIs r t m.epoch x.2.2) c.log := by
+        apply List.countP_mono_left
+        intro y hy hw
+        obtain ⟨w1, w2, w3⟩ := wildEntry_iff.mp hw
+        obtain ⟨_, _, l3, l4⟩ := hc.log_wf y hy
+        subst w1
+        have := ih y hy t w2
+        refine msgIs_iff.mpr ⟨l3, ?_, this.trans w3⟩
+        rw [w2] at l4
+        rcases l4 with l4 | l4 <;> cases l4
+        rfl
+      omega
+    · rw [hlog]; exact ih
+
+/-- **Phase isolation** (C05): whatever the interleaving and the matching of wildcard receives,
+    a wildcard receive only ever consumes a message sent in its own epoch. -/
+theorem phase_isolation (hcm : CountMatch N S) (_hw : WildOnly N S)
+    (_hdst : DstValid N S)
+    {c : Cfg} (h : Reach N S c) {r pos t : Nat} {m : Msg} (hlog : (r, pos, m) ∈ c.log)
+    (hop : (S r)[pos]? = some (.recvAny t)) : m.epoch = passed (S r) pos :=
+  phase_isolation_of_countMatch hcm h (r, pos, m) hlog t hop
+
+/-! ## 5. Every rank receives exactly the messages sent to it in the phase -/
+
+/-- rank `q` has executed all of its operations of epoch `e` -/
+def EpochDone (S : Nat → Script) (c : Cfg) (q e : Nat) : Prop :=
+  ∀ i, c.pc q ≤ i → i < (S q).length → passed (S q) i ≠ e
+
+theorem epochDone_of_lt {c : Cfg} {q e : Nat} (h : e < passed (S q) (c.pc q)) :
+    EpochDone S c q e := by
+  intro i hi _ heq
+  have := passed_mono (S q) hi
+  omega
+
+theorem epochDone_of_finished {c : Cfg} {q : Nat} (h : c.pc q = (S q).length) (e : Nat) :
+    EpochDone S c q e := by
+  intro i hi hlt; omega
+
+/-- the messages consumed by the wildcard receives of rank `q` with tag `t` in epoch `e`
+    (newest first) -/
+def wildLog (S : Nat → Script) (c : Cfg) (q t e : Nat) : List Msg :=
+  (c.log.filter (wildEntry S q t e)).map (·.2.2)
+
+/-- the messages of the executed sends addressed to `q` with tag `t` in epoch `e` -/
+def sentMsgs (N : Nat) (S : Nat → Script) (c : Cfg) (q t e : Nat) : List Msg :=
+  (sentList N S c.pc).filter (msgIs q t e)
+
+/-- under phase isolation a wildcard receive entry of `(q,t,e)` holds a `(q,t,e)` message -/
+theorem wild_imp_msgIs (hcm : CountMatch N S) {c : Cfg} (h : Reach N S c) (q t e : Nat) :
+    ∀ x ∈ c.log, wildEntry S q t e x = true → msgIs q t e x.2.2 = true := by
+  intro y hy hw
+  obtain ⟨w1, w2, w3⟩ := wildEntry_iff.mp hw
+  obtain ⟨_, _, l3, l4⟩ := h.log_wf y hy
+  subst w1
+  have := phase_isolation_of_countMatch hcm h y hy t w2
+  refine msgIs_iff.mpr ⟨l3, ?_, this.trans w3⟩
+  rw [w2] at l4
+  rcases l4 with l4 | l4 <;> cases l4
+  rfl
+
+theorem length_wildLog {c : Cfg} (h : Reach N S c) (q t e : Nat) :
+    (wildLog S c q t e).length = cntUpto (S q) (Op.isRecvAny t) e (c.pc q) := by
+  unfold wildLog
+  rw [List.length_map, ← List.countP_eq_length_filter, h.count_wild]
+
+theorem cntUpto_of_epochDone {c : Cfg} (h : Reach N S c) {q e : Nat} (hd : EpochDone S c q e)
+    (f : Op → Bool) : cntUpto (S q) f e (c.pc q) = countAt (S q) f e := by
+  apply cntUpto_eq_countAt _ _ _ (h.pc_le_length q)
+  intro i hi hlt
+  cases hp : posPred (S q) f e i with
+  | false => rfl
+  | true =>
+    obtain ⟨op, _, _, h3⟩ := posPred_iff.mp hp
+    exact absurd h3 (hd i hi hlt)
+
+/-- Core of targets 5–7. If rank `q` is past its epoch-`e` operations then: the messages its
+    wildcard receives of `(t,e)` consumed are *all* `(q,t,e)` messages present in the system,
+    none is left in flight, and every rank has already executed all its `(q,t,e)` sends. -/
+theorem received_core (hcm : CountMatch N S) {c : Cfg} (h : Reach N S c) {q : Nat} (hq : q < N)
+    (t e : Nat) (hd : EpochDone S c q e) :
+    wildLog S c q t e = (c.log.map (·.2.2)).filter (msgIs q t e) ∧
+    c.net.filter (msgIs q t e) = [] ∧
+    ∀ p, p < N → cntUpto (S p) (Op.isSendTo q t) e (c.pc p) = sentTo (S p) q t e := by
+  have hsub : (wildLog S c q t e).Sublist ((c.log.map (·.2.2)).filter (msgIs q t e)) := by
+    unfold wildLog
+    rw [List.filter_map]
+    apply List.Sublist.map
+    have : c.log.filter (wildEntry S q t e) =
+        (c.log.filter (msgIs q t e ∘ fun x => x.2.2)).filter (wildEntry S q t e) := by
+      rw [List.filter_filter]
+      apply List.filter_congr
+      intro x hx
+      cases hw : wildEntry S q t e x with
+      | false => rfl
+      | true => simp [wild_imp_msgIs hcm h q t e x hx hw]
+    rw [this]
+    exact List.filter_sublist
+  have h1 := length_wildLog h q t e
+  rw [cntUpto_of_epochDone h hd] at h1
+  have h2 := h.count_msgs q t e
+  have h3 := h.sent_le q t e
+  have h4 := hcm q hq t e
+  have h5 : ((c.log.map (·.2.2)).filter (msgIs q t e)).length =
+      List.countP (fun x => msgIs q t e x.2.2) c.log := by
+    rw [← List.countP_eq_length_filter, List.countP_map]; rfl
+  have h6 := hsub.length_le
+  unfold wildRecvs at h4
+  refine ⟨hsub.eq_of_length_le (by omega), ?_, ?_⟩
+  · rw [List.filter_eq_nil_iff]
+    have : List.countP (msgIs q t e) c.net = 0 := by omega
+    exact List.countP_eq_zero.mp this
+  · apply eq_of_sum_map_range_le
+    · intro p _; exact cntUpto_le_countAt _ _ _ (h.pc_le_length p)
+    · show ((List.range N).map fun p => sentTo (S p) q t e).sum ≤ _
+      omega
+
+/-- **Target 5.** Once rank `q` has executed its operations of epoch `e`, the messages received
+    by its wildcard receives of tag `t` in that epoch are, up to order, exactly the messages
+    sent to `q` with tag `t` in epoch `e` (and all of those sends have been executed). -/
+theorem received_multiset_eq (hcm : CountMatch N S) (_hw : WildOnly N S) (_hdst : DstValid N S)
+    {c : Cfg} (h : Reach N S c) {q : Nat} (hq : q < N) (t e : Nat) (hd : EpochDone S c q e) :
+    (wildLog S c q t e).Perm (sentMsgs N S c q t e) ∧
+    ∀ p, p < N → cntUpto (S p) (Op.isSendTo q t) e (c.pc p) = sentTo (S p) q t e := by
+  obtain ⟨h1, h2, h3⟩ := received_core hcm h hq t e hd
+  refine ⟨?_, h3⟩
+  have := (h.allMsgs_perm.filter (msgIs q t e))
+  unfold Cfg.allMsgs at this
+  rw [List.filter_append, h2, List.nil_append, ← h1] at this
+  exact this
+
+/-- counts per (source, body), as a corollary -/
+theorem received_count_eq (hcm : CountMatch N S) (hw : WildOnly N S) (hdst : DstValid N S)
+    {c : Cfg} (h : Reach N S c) {q : Nat} (hq : q < N) (t e : Nat) (hd : EpochDone S c q e)
+    (s b : Nat) :
+    ((wildLog S c q t e).map fun m => (m.src, m.body)).count (s, b) =
+      ((sentMsgs N S c q t e).map fun m => (m.src, m.body)).count (s, b) :=
+  ((received_multiset_eq hcm hw hdst h hq t e hd).1.map _).count_eq _
+
+/-! ## 7. The arrival order is irrelevant -/
+
+/-- all ranks have finished their scripts -/
+def Finished (N : Nat) (S : Nat → Script) (c : Cfg) : Prop := ∀ p, p < N → c.pc p = (S p).length
+
+/-- **Target 7.** Two complete executions deliver to every rank, for every tag and epoch, the same
+    multiset of messages (hence of (source, body) pairs): only the order of wildcard matches
+    inside a phase can differ. -/
+theorem arrival_order_irrelevant (hcm : CountMatch N S) (hw : WildOnly N S) (hdst : DstValid N S)
+    {c₁ c₂ : Cfg} (h₁ : Reach N S c₁) (h₂ : Reach N S c₂)
+    (f₁ : Finished N S c₁) (f₂ : Finished N S c₂) {q : Nat} (hq : q < N) (t e : Nat) :
+    (wildLog S c₁ q t e).Perm (wildLog S c₂ q t e) ∧
+    ((wildLog S c₁ q t e).map fun m => (m.src, m.body)).Perm
+      ((wildLog S c₂ q t e).map fun m => (m.src, m.body)) := by
+  have e1 := (received_multiset_eq hcm hw hdst h₁ hq t e (epochDone_of_finished (f₁ q hq) e)).1
+  have e2 := (received_multiset_eq hcm hw hdst h₂ hq t e (epochDone_of_finished (f₂ q hq) e)).1
+  have : sentMsgs N S c₁ q t e = sentMsgs N S c₂ q t e := by
+    unfold sentMsgs sentList
+    rw [flatMap_range_congr (f := fun p => sentBy S p (c₂.pc p))
+      (f' := fun p => sentBy S p (c₁.pc p))]
+    intro p hp
+    show sentBy S p (c₁.pc p) = sentBy S p (c₂.pc p)
+    rw [f₁ p hp, f₂ p hp]
+  have hp : (wildLog S c₁ q t e).Perm (wildLog S c₂ q t e) :=
+    e1.trans (this ▸ e2.symm)
+  exact ⟨hp, hp.map _⟩
+
+/-! ## 6. No deadlock -/
+
+/-- no specific-source receives -/
+def NoRecvFrom (N : Nat) (S : Nat → Script) : Prop :=
+  ∀ q, q < N → ∀ (i s t : Nat), (S q)[i]? ≠ some (Op.recvFrom s t)
+
+/-- inside an epoch, a rank posts its sends before its receives -/
+def SendsFirst (N : Nat) (S : Nat → Script) : Prop :=
+  ∀ q, q < N → ∀ (i j t d t' b : Nat), i < j → (S q)[i]? = some (Op.recvAny t) →
+    (S q)[j]? = some (Op.send d t' b) → passed (S q) i < passed (S q) j
+
+/-- all ranks execute the same number of collectives -/
+def SameColls (N : Nat) (S : Nat → Script) : Prop :=
+  ∀ p q, p < N → q < N → passed (S p) (S p).length = passed (S q) (S q).length
+
+/-- among the unfinished ranks there is one whose `reached` is minimal over all ranks -/
+theorem exists_min_unfinished (hsc : SameColls N S) {c : Cfg} {r : Nat}
+    (hr : r < N) (hun : c.pc r < (S r).length) :
+    ∃ r₁, r₁ < N ∧ c.pc r₁ < (S r₁).length ∧
+      ∀ q, q < N → reached (S r₁) (c.pc r₁) ≤ reached (S q) (c.pc q) := by
+  obtain ⟨r₀, hr₀, hmin⟩ := exists_min_range (fun q => reached (S q) (c.pc q))
+    (Nat.lt_of_le_of_lt (Nat.zero_le _) hr)
+  by_cases h0 : c.pc r₀ < (S r₀).length
+  · exact ⟨r₀, hr₀, h0, hmin⟩
+  · refine ⟨r, hr, hun, fun q hq => ?_⟩
+    have h1 : reached (S r₀) (c.pc r₀) = passed (S r₀) (S r₀).length :=
+      reached_of_length_le _ (Nat.le_of_not_lt h0)
+    have h2 := reached_le_total (S r) (c.pc r)
+    have h3 := hsc r r₀ hr hr₀
+    have h4 : reached (S r₀) (c.pc r₀) ≤ reached (S q) (c.pc q) := hmin q hq
+    omega
+
+/-- If no step is possible and rank `r` (with globally minimal `reached`) waits at a wildcard
+    receive, then every rank has executed all its sends of `r`'s current epoch. -/
+theorem sends_done_of_stuck (hnr : NoRecvFrom N S) (hsf : SendsFirst N S)
+    {c : Cfg} (h : Reach N S c) (hstuck : ¬ ∃ c', Step N S c c') {r t : Nat}
+    (hop : (S r)[c.pc r]? = some (Op.recvAny t))
+    (hmin : ∀ q, q < N → reached (S r) (c.pc r) ≤ reached (S q) (c.pc q))
+    (f : Op → Bool) (hf : ∀ op, f op = true → ∃ d t b, op = Op.send d t b) :
+    ∀ q, q < N → cntUpto (S q) f (passed (S r) (c.pc r)) (c.pc q) =
+      countAt (S q) f (passed (S r) (c.pc r)) := by
+  intro q hq
+  have hre : reached (S r) (c.pc r) = passed (S r) (c.pc r) := reached_of_not_coll hop rfl
+  apply cntUpto_eq_countAt _ _ _ (h.pc_le_length q)
+  intro i hi hlt
+  cases hp : posPred (S q) f (passed (S r) (c.pc r)) i with
+  | false => rfl
+  | true =>
+    exfalso
+    obtain ⟨op, hopi, hfop, hpe⟩ := posPred_iff.mp hp
+    obtain ⟨d, t', b, rfl⟩ := hf op hfop
+    have hlt' : c.pc q < (S q).length := Nat.lt_of_le_of_lt hi hlt
+    have hq_op : (S q)[c.pc q]? = some (S q)[c.pc q] := List.getElem?_eq_getElem hlt'
+    have hm := hmin q hq
+    generalize (S q)[c.pc q] = opq at hq_op
+    cases opq with
+    | send d t b => exact hstuck ⟨_, Step.send c q d t b hq hq_op⟩
+    | recvFrom s t => exact hnr q hq _ _ _ hq_op
+    | recvAny t'' =>
+      have hne : i ≠ c.pc q := by
+        intro heq; rw [heq, hq_op] at hopi; cases hopi
+      have h1 := hsf q hq (c.pc q) i t'' d t' b (by omega) hq_op hopi
+      have h2 : reached (S q) (c.pc q) = passed (S q) (c.pc q) := reached_of_not_coll hq_op rfl
+      omega
+    | coll =>
+      by_cases heq : reached (S q) (c.pc q) = reached (S r) (c.pc r)
+      · exact hstuck ⟨_, Step.coll c q hq hq_op (fun q' hq' => heq ▸ hmin q' hq')⟩
+      · have hne : i ≠ c.pc q := by
+          intro heq; rw [heq, hq_op] at hopi; cases hopi
+        have h1 : reached (S q) (c.pc q) = passed (S q) (c.pc q) + 1 := reached_of_coll hq_op rfl
+        have h2 : passed (S q) (c.pc q + 1) ≤ passed (S q) i := passed_mono _ (by omega)
+        rw [← reached_eq_passed_succ] at h2
+        omega
+
+/-- a log entry holding a `(r,t,e)` message is a wildcard receive of `(r,t,e)` (no `recvFrom`) -/
+theorem msgIs_imp_wild (hcm : CountMatch N S) (hnr : NoRecvFrom N S) {c : Cfg}
+    (h : Reach N S c) (r t e : Nat) :
+    ∀ x ∈ c.log, msgIs r t e x.2.2 = true → wildEntry S r t e x = true := by
+  intro x hx hm
+  obtain ⟨m1, m2, m3⟩ := msgIs_iff.mp hm
+  obtain ⟨l1, _, l3, l4⟩ := h.log_wf x hx
+  have hx1 : x.1 = r := l3.symm.trans m1
+  rcases l4 with l4 | l4
+  · have := phase_isolation_of_countMatch hcm h x hx _ l4
+    rw [m2] at l4
+    rw [hx1] at l4 this
+    exact wildEntry_iff.mpr ⟨hx1, l4, this.symm.trans m3⟩
+  · exact absurd l4 (hnr x.1 l1 _ _ _)
+
+/-- **Progress** (general form): with count match, no `recvFrom`, sends before receives inside
+    each epoch and the same number of collectives on every rank, a reachable configuration in
+    which some rank has not finished has a successor. -/
+theorem progress (hcm : CountMatch N S) (hnr : NoRecvFrom N S) (hsf : SendsFirst N S)
+    (hsc : SameColls N S) {c : Cfg} (h : Reach N S c) {r : Nat} (hr : r < N)
+    (hun : c.pc r < (S r).length) : ∃ c', Step N S c c' := by
+  obtain ⟨r, hr, hun, hmin⟩ := exists_min_unfinished hsc hr hun
+  have hop : (S r)[c.pc r]? = some (S r)[c.pc r] := List.getElem?_eq_getElem hun
+  generalize (S r)[c.pc r] = op at hop
+  cases op with
+  | send d t b => exact ⟨_, Step.send c r d t b hr hop⟩
+  | recvFrom s t => exact absurd hop (hnr r hr _ _ _)
+  | coll => exact ⟨_, Step.coll c r hr hop hmin⟩
+  | recvAny t =>
+    apply Classical.byContradiction
+    intro hstuck
+    have hs := sends_done_of_stuck hnr hsf h hstuck hop hmin (Op.isSendTo r t)
+      (fun op hf => by obtain ⟨b, rfl⟩ := isSendTo_iff.mp hf; exact ⟨_, _, _, rfl⟩)
+    have h2 := h.count_msgs r t (passed (S r) (c.pc r))
+    have hsum := sum_map_range_congr (N := N) hs
+    have h4 := hcm r hr t (passed (S r) (c.pc r))
+    have h5 := h.count_wild r t (passed (S r) (c.pc r))
+    have h6 : cntUpto (S r) (Op.isRecvAny t) (passed (S r) (c.pc r)) (c.pc r) + 1 ≤
+        wildRecvs (S r) t (passed (S r) (c.pc r)) := by
+      have := cntUpto_le_countAt (S r) (Op.isRecvAny t) (passed (S r) (c.pc r))
+        (k := c.pc r + 1) hun
+      rw [cntUpto_succ, posPred_of_op hop] at this
+      simpa [Op.isRecvAny, wildRecvs] using this
+    have h7 := List.countP_mono_left (msgIs_imp_wild hcm hnr h r t (passed (S r) (c.pc r)))
+    have hpos : 0 < List.countP (msgIs r t (passed (S r) (c.pc r))) c.net := by
+      unfold sentTo at h4
+      omega
+    obtain ⟨m, hm, hmis⟩ := List.countP_pos_iff.mp hpos
+    obtain ⟨m1, m2, _⟩ := msgIs_iff.mp hmis
+    obtain ⟨m', hm', _, e2, e3, hold⟩ := exists_oldest hm
+    exact hstuck ⟨_, Step.recvAny c r t m' hr hop hm' (e2.trans m1) (e3.trans m2) hold⟩
+
+/-- number of operations still to execute -/
+def remaining (N : Nat) (S : Nat → Script) (c : Cfg) : Nat :=
+  ((List.range N).map fun p => (S p).length - c.pc p).sum
+
+/-- every step executes exactly one operation: executions are finite -/
+theorem step_remaining {c c' : Cfg} (hs : Step N S c c') :
+    remaining N S c' + 1 = remaining N S c := by
+  obtain ⟨r, op, hr, hop, hpc, _⟩ := hs.cases'
+  unfold remaining
+  rw [hpc]
+  have hlt := (List.getElem?_eq_some_iff.mp hop).1
+  apply sum_map_range_update hr
+  · simp only [if_true]; omega
+  · intro p hp; simp only [if_neg hp]
+
+/-- when everybody has finished, nothing addressed to an existing rank is left in flight -/
+theorem finished_net_empty (hcm : CountMatch N S) (hdst : DstValid N S) {c : Cfg}
+    (h : Reach N S c) (hf : Finished N S c) : c.net = [] := by
+  cases hnet : c.net with
+  | nil => rfl
+  | cons m l =>
+    exfalso
+    have hm : m ∈ c.net := by rw [hnet]; exact List.mem_cons_self
+    obtain ⟨h1, _, h3, _⟩ := h.mem_allMsgs.mp (mem_allMsgs_of_net hm)
+    have hd : m.dst < N := hdst m.src h1 _ _ _ _ h3
+    have := (received_core hcm h hd m.tag m.epoch (epochDone_of_finished (hf _ hd) _)).2.1
+    rw [List.filter_eq_nil_iff] at this
+    exact this m hm (msgIs_iff.mpr ⟨rfl, rfl, rfl⟩)
+
+/-- `n`-step executions -/
+inductive StepsN (N : Nat) (S : Nat → Script) : Nat → Cfg → Cfg → Prop where
+  | refl (c : Cfg) : StepsN N S 0 c c
+  | cons {n : Nat} {c c' c'' : Cfg} : Step N S c c' → StepsN N S n c' c'' → StepsN N S (n+1) c c''
+
+/-- an execution from `c` has at most `remaining c` steps (termination) -/
+theorem steps_bounded {n : Nat} {c c' : Cfg} (h : StepsN N S n c c') :
+    n + remaining N S c' = remaining N S c := by
+  induction h with
+  | refl c => exact Nat.zero_add _
+  | cons hs _ ih => have := step_remaining hs; omega
+
+/-- a terminal configuration (no successor) is a final one: all scripts finished, network empty -/
+theorem terminal_finished (hcm : CountMatch N S) (hnr : NoRecvFrom N S) (hsf : SendsFirst N S)
+    (hsc : SameColls N S) (hdst : DstValid N S) {c : Cfg} (h : Reach N S c)
+    (hterm : ¬ ∃ c', Step N S c c') : Finished N S c ∧ c.net = [] := by
+  have hf : Finished N S c := by
+    intro p hp
+    apply Nat.le_antisymm (h.pc_le_length p)
+    apply Nat.le_of_not_lt
+    intro hlt
+    exact hterm (progress hcm hnr hsf hsc h hp hlt)
+  exact ⟨hf, finished_net_empty hcm hdst h hf⟩
+
+/-- some complete execution exists (so the statements about finished configurations are not
+    vacuous) -/
+theorem exists_finished (hcm : CountMatch N S) (hnr : NoRecvFrom N S) (hsf : SendsFirst N S)
+    (hsc : SameColls N S) : ∃ c, Reach N S c ∧ Finished N S c := by
+  have key : ∀ n c, Reach N S c → remaining N S c = n → ∃ c', Reach N S c' ∧ Finished N S c' := by
+    intro n
+    induction n with
+    | zero =>
+      intro c h hrem
+      by_cases hex : ∃ r, r < N ∧ c.pc r < (S r).length
+      · obtain ⟨r, hr, hun⟩ := hex
+        obtain ⟨c', hs⟩ := progress hcm hnr hsf hsc h hr hun
+        have := step_remaining hs
+        omega
+      · refine ⟨c, h, fun p hp => ?_⟩
+        apply Nat.le_antisymm (h.pc_le_length p)
+        apply Nat.le_of_not_lt
+        intro hlt; exact hex ⟨p, hp, hlt⟩
+    | succ n ih =>
+      intro c h hrem
+      by_cases hex : ∃ r, r < N ∧ c.pc r < (S r).length
+      · obtain ⟨r, hr, hun⟩ := hex
+        obtain ⟨c', hs⟩ := progress hcm hnr hsf hsc h hr hun
+        have := step_remaining hs
+        exact ih c' (Reach.step h hs) (by omega)
+      · refine ⟨c, h, fun p hp => ?_⟩
+        apply Nat.le_antisymm (h.pc_le_length p)
+        apply Nat.le_of_not_lt
+        intro hlt; exact hex ⟨p, hp, hlt⟩
+  exact key _ Mpi.init Reach.init rfl
+
+/-! ### Phase-structured scripts -/
+
+/-- one phase: a collective, then sends, then wildcard receives, all with the phase's tag -/
+structure Phase where
+  (tag : Nat)
+  (sends : List (Nat × Nat))   -- (destination, body)
+  (nrecv : Nat)
+
+def Phase.ops (ph : Phase) : Script :=
+  Op.coll :: ((ph.sends.map fun db => Op.send db.1 ph.tag db.2) ++
+    List.replicate ph.nrecv (Op.recvAny ph.tag))
+
+def phasesScript (phs : List Phase) : Script := phs.flatMap Phase.ops
+
+/-- every script is a concatenation of phases, the same number of phases on every rank -/
+def PhaseStructured (N : Nat) (S : Nat → Script) : Prop :=
+  ∃ K, ∀ q, q < N → ∃ phs : List Phase, phs.length = K ∧ S q = phasesScript phs
+
+theorem phasesScript_cons (ph : Phase) (phs : List Phase) :
+    phasesScript (ph :: phs) = ph.ops ++ phasesScript phs := by
+  simp [phasesScript]
+
+theorem mem_ops {ph : Phase} {op : Op} (h : op ∈ ph.ops) :
+    op = Op.coll ∨ (∃ d b, op = Op.send d ph.tag b) ∨ op = Op.recvAny ph.tag := by
+  unfold Phase.ops at h
+  rcases List.mem_cons.mp h with h | h
+  · exact Or.inl h
+  · rcases List.mem_append.mp h with h | h
+    · obtain ⟨db, _, rfl⟩ := List.mem_map.mp h
+      exact Or.inr (Or.inl ⟨_, _, rfl⟩)
+    · exact Or.inr (Or.inr (List.mem_replicate.mp h).2)
+
+theorem ops_total (ph : Phase) : passed ph.ops ph.ops.length = 1 := by
+  unfold passed
+  rw [List.take_length]
+  unfold Phase.ops
+  rw [List.filter_cons_of_pos (by rfl), List.filter_append]
+  have h1 : (ph.sends.map fun db => Op.send db.1 ph.tag db.2).filter Op.isColl = [] := by
+    rw [List.filter_eq_nil_iff]
+    intro a ha
+    obtain ⟨db, _, rfl⟩ := List.mem_map.mp ha
+    simp [Op.isColl]
+  have h2 : (List.replicate ph.nrecv (Op.recvAny ph.tag)).filter Op.isColl = [] := by
+    rw [List.filter_eq_nil_iff]
+    intro a ha
+    rw [(List.mem_replicate.mp ha).2]
+    simp [Op.isColl]
+  rw [h1, h2]; rfl
+
+theorem phasesScript_total (phs : List Phase) :
+    passed (phasesScript phs) (phasesScript phs).length = phs.length := by
+  induction phs with
+  | nil => rfl
+  | cons ph phs ih =>
+    rw [phasesScript_cons, passed_total_append, ops_total, ih, List.length_cons, Nat.add_comm]
+
+theorem ops_recv_index {ph : Phase} {i t : Nat} (h : ph.ops[i]? = some (Op.recvAny t)) :
+    ph.sends.length < i := by
+  cases i with
+  | zero => simp [Phase.ops] at h
+  | succ i =>
+    by_cases hi : i < ph.sends.length
+    · exfalso
+      unfold Phase.ops at h
+      rw [List.getElem?_cons_succ, List.getElem?_append_left (by simpa using hi),
+        List.getElem?_map] at h
+      cases hh : ph.sends[i]? <;> simp [hh] at h
+    · omega
+
+theorem ops_send_index {ph : Phase} {j d t b : Nat} (h : ph.ops[j]? = some (Op.send d t b)) :
+    j ≤ ph.sends.length := by
+  cases j with
+  | zero => exact Nat.zero_le _
+  | succ j =>
+    by_cases hj : j < ph.sends.length
+    · omega
+    · exfalso
+      unfold Phase.ops at h
+      rw [List.getElem?_cons_succ, List.getElem?_append_right (by simpa using hj),
+        List.getElem?_replicate] at h
+      split at h <;> cases h
+
+theorem phasesScript_sendsFirst (phs : List Phase) :
+    ∀ (i j t d t' b : Nat), i < j → (phasesScript phs)[i]? = some (Op.recvAny t) →
+      (phasesScript phs)[j]? = some (Op.send d t' b) →
+      passed (phasesScript phs) i < passed (phasesScript phs) j := by
+  induction phs with
+  | nil => intro i j t d t' b _ h; simp [phasesScript] at h
+  | cons ph phs ih =>
+    intro i j t d t' b hij hi hj
+    rw [phasesScript_cons] at hi hj ⊢
+    by_cases hjl : j < ph.ops.length
+    · exfalso
+      rw [List.getElem?_append_left hjl] at hj
+      rw [List.getElem?_append_left (Nat.lt_trans hij hjl)] at hi
+      have := ops_recv_index hi
+      have := ops_send_index hj
+      omega
+    · have hjl' : ph.ops.length ≤ j := Nat.le_of_not_lt hjl
+      by_cases hil : i < ph.ops.length
+      · -- `i` in this phase, `j` in a later one: the next phase starts with a collective
+        have hj' := hj
+        rw [List.getElem?_append_right hjl'] at hj'
+        have hcoll : (ph.ops ++ phasesScript phs)[ph.ops.length]? = some Op.coll := by
+          rw [List.getElem?_append_right (Nat.le_refl _), Nat.sub_self]
+          cases phs with
+          | nil => simp [phasesScript] at hj'
+          | cons ph' phs' => rw [phasesScript_cons]; rfl
+        have hne : j ≠ ph.ops.length := by
+          intro heq; rw [heq, hcoll] at hj; cases hj
+        have h1 := passed_mono (ph.ops ++ phasesScript phs) (Nat.le_of_lt hil)
+        have h2 := passed_succ_of_coll hcoll rfl
+        have h3 : passed (ph.ops ++ phasesScript phs) (ph.ops.length + 1) ≤
+            passed (ph.ops ++ phasesScript phs) j := passed_mono _ (by omega)
+        omega
+      · obtain ⟨i', rfl⟩ := Nat.exists_eq_add_of_le (Nat.le_of_not_lt hil)
+        obtain ⟨j', rfl⟩ := Nat.exists_eq_add_of_le hjl'
+        rw [List.getElem?_append_right (Nat.le_add_right _ _), Nat.add_sub_cancel_left] at hi hj
+        rw [passed_append_right, passed_append_right]
+        have := ih i' j' t d t' b (by omega) hi hj
+        omega
+
+theorem PhaseStructured.noRecvFrom (h : PhaseStructured N S) : NoRecvFrom N S := by
+  obtain ⟨K, hK⟩ := h
+  intro q hq i s t hop
+  obtain ⟨phs, _, hS⟩ := hK q hq
+  have hmem := List.mem_of_getElem? hop
+  rw [hS] at hmem
+  obtain ⟨ph, _, hm⟩ := List.mem_flatMap.mp hmem
+  rcases mem_ops hm with h | ⟨_, _, h⟩ | h <;> cases h
+
+theorem PhaseStructured.sendsFirst (h : PhaseStructured N S) : SendsFirst N S := by
+  obtain ⟨K, hK⟩ := h
+  intro q hq i j t d t' b hij hi hj
+  obtain ⟨phs, _, hS⟩ := hK q hq
+  rw [hS] at hi hj ⊢
+  exact phasesScript_sendsFirst phs i j t d t' b hij hi hj
+
+theorem PhaseStructured.sameColls (h : PhaseStructured N S) : SameColls N S := by
+  obtain ⟨K, hK⟩ := h
+  intro p q hp hq
+  obtain ⟨phs, h1, hS⟩ := hK p hp
+  obtain ⟨phs', h1', hS'⟩ := hK q hq
+  rw [hS, hS', phasesScript_total, phasesScript_total, h1, h1']
+
+theorem WildOnly_of_noRecvFrom (h : NoRecvFrom N S) : WildOnly N S := by
+  intro q hq i s t hop
+  exact absurd hop (h q hq i s t)
+
+/-- **Target 6 (progress).** For phase-structured scripts with matching counts, a reachable
+    configuration in which some rank has not finished its script has a successor. -/
+theorem no_deadlock (hps : PhaseStructured N S) (hcm : CountMatch N S) {c : Cfg}
+    (h : Reach N S c) {r : Nat} (hr : r < N) (hun : c.pc r < (S r).length) :
+    ∃ c', Step N S c c' :=
+  progress hcm hps.noRecvFrom hps.sendsFirst hps.sameColls h hr hun
+
+/-- Every execution is finite (`step_remaining`: each step decreases `remaining` by one), and a
+    maximal one ends with all scripts finished and an empty network. -/
+theorem maximal_execution_finished (hps : PhaseStructured N S) (hcm : CountMatch N S)
+    (hdst : DstValid N S) {c : Cfg} (h : Reach N S c) (hterm : ¬ ∃ c', Step N S c c') :
+    Finished N S c ∧ c.net = [] :=
+  terminal_finished hcm hps.noRecvFrom hps.sendsFirst hps.sameColls hdst h hterm
+
+/-- a complete execution exists -/
+theorem exists_complete_execution (hps : PhaseStructured N S) (hcm : CountMatch N S) :
+    ∃ c, Reach N S c ∧ Finished N S c :=
+  exists_finished hcm hps.noRecvFrom hps.sendsFirst hps.sameColls
+
+/-! ## Non-vacuity: a concrete 3-rank, two-phase script family reusing tag 7
+
+Phase 1: ranks 1 and 2 each send one message (tag 7) to rank 0, which posts two wildcard
+receives. Phase 2 (after the second collective): the same tag 7 is reused, now ranks 0 and 2
+send to rank 1, which posts two wildcard receives. -/
+
+def exS : Nat → Script
+  | 0 => [.coll, .recvAny 7, .recvAny 7, .coll, .send 1 7 30]
+  | 1 => [.coll, .send 0 7 10, .coll, .recvAny 7, .recvAny 7]
+  | 2 => [.coll, .send 0 7 20, .coll, .send 1 7 40]
+  | _ => []
+
+theorem exS_countMatch : CountMatch 3 exS :=
+  countMatch_of_bounded [7] 2 (by decide) (by decide) (by decide)
+
+theorem exS_phaseStructured : PhaseStructured 3 exS := by
+  refine ⟨2, fun q hq => ?_⟩
+  match q, hq with
+  | 0, _ => exact ⟨[⟨7, [], 2⟩, ⟨7, [(1, 30)], 0⟩], rfl, rfl⟩
+  | 1, _ => exact ⟨[⟨7, [(0, 10)], 0⟩, ⟨7, [], 2⟩], rfl, rfl⟩
+  | 2, _ => exact ⟨[⟨7, [(0, 20)], 0⟩, ⟨7, [(1, 40)], 0⟩], rfl, rfl⟩
+
+theorem exS_wildOnly : WildOnly 3 exS := WildOnly_of_noRecvFrom exS_phaseStructured.noRecvFrom
+
+theorem exS_dstValid : DstValid 3 exS := by
+  intro p hp i d t b hop
+  have hmem := List.mem_of_getElem? hop
+  match p, hp with
+  | 0, _ => simp [exS] at hmem; omega
+  | 1, _ => simp [exS] at hmem; omega
+  | 2, _ => simp [exS] at hmem; omega
+
+/-- An explicitly constructed execution prefix: rank 2 passes the first collective and sends,
+    rank 0 passes the collective and its first wildcard receive matches the message of rank 2
+    (rank 1 has not even sent yet). -/
+example : ∃ c, Reach 3 exS c ∧ c.log = [(0, 1, ⟨2, 1, 0, 7, 20, 1⟩)] ∧ c.net = [] := by
+  have r1 := Reach.step (N := 3) (S := exS) Reach.init
+    (Step.coll Mpi.init 2 (by decide) rfl (by decide))
+  have r2 := Reach.step r1 (Step.send _ 2 0 7 20 (by decide) rfl)
+  have r3 := Reach.step r2 (Step.coll _ 0 (by decide) rfl (by decide))
+  have r4 := Reach.step r3 (Step.recvAny _ 0 7 ⟨2, 1, 0, 7, 20, 1⟩ (by decide) rfl
+    (by decide) rfl rfl rfl)
+  exact ⟨_, r4, rfl, rfl⟩
+
+/-- The other arrival order is reachable too: both phase-1 messages are in flight and rank 0
+    matches the message of rank 1 first, then that of rank 2. -/
+example : ∃ c, Reach 3 exS c ∧
+    c.log = [(0, 2, ⟨2, 1, 0, 7, 20, 1⟩), (0, 1, ⟨1, 1, 0, 7, 10, 1⟩)] := by
+  have r1 := Reach.step (N := 3) (S := exS) Reach.init
+    (Step.coll Mpi.init 2 (by decide) rfl (by decide))
+  have r2 := Reach.step r1 (Step.send _ 2 0 7 20 (by decide) rfl)
+  have r3 := Reach.step r2 (Step.coll _ 1 (by decide) rfl (by decide))
+  have r4 := Reach.step r3 (Step.send _ 1 0 7 10 (by decide) rfl)
+  have r5 := Reach.step r4 (Step.coll _ 0 (by decide) rfl (by decide))
+  have r6 := Reach.step r5 (Step.recvAny _ 0 7 ⟨1, 1, 0, 7, 10, 1⟩ (by decide) rfl
+    (by decide) rfl rfl rfl)
+  have r7 := Reach.step r6 (Step.recvAny _ 0 7 ⟨2, 1, 0, 7, 20, 1⟩ (by decide) rfl
+    (by decide) rfl rfl rfl)
+  exact ⟨_, r7, rfl⟩
+
+/-- The theorems apply to the example: complete executions exist, every one of them ends with an
+    empty network, and all of them deliver the same multisets. -/
+example : ∃ c, Reach 3 exS c ∧ Finished 3 exS c ∧ c.net = [] := by
+  obtain ⟨c, h, hf⟩ := exists_complete_execution exS_phaseStructured exS_countMatch
+  exact ⟨c, h, hf, finished_net_empty exS_countMatch exS_dstValid h hf⟩
+
+example {c : Cfg} (h : Reach 3 exS c) {r pos t : Nat} {m : Msg} (hl : (r, pos, m) ∈ c.log)
+    (hop : (exS r)[pos]? = some (.recvAny t)) : m.epoch = passed (exS r) pos :=
+  phase_isolation exS_countMatch exS_wildOnly exS_dstValid h hl hop
+
+/- OPEN (not proved): nothing — targets 1–7 are all proved in the generality asked for.
+   Remarks on scope (not open problems of this file):
+   * `WildOnly` and `DstValid` turned out to be unnecessary for the safety theorems
+     (`phase_isolation`, `received_multiset_eq`, `arrival_order_irrelevant` keep them as unused
+     hypotheses to match the specification; the `_of_countMatch`/`received_core` versions omit them).
+   * Liveness (`progress`) is proved for scripts without `recvFrom` (`NoRecvFrom`), with sends
+     before receives inside each epoch (`SendsFirst`) and equally many collectives on all ranks
+     (`SameColls`); `PhaseStructured` implies the three. Progress for scripts that mix `recvFrom`
+     with wildcard receives is not addressed (it is false in general).
+-/
 
 end Raptor.C05
